@@ -698,7 +698,50 @@ pub fn drive(
     let mut root = Rng::new(ctx.seed).fork(0x5E11 + ctx.shard as u64);
     for li in 0..d.random_lists {
         let mut rng = root.fork(li as u64);
-        let (pats, alpha) = gen::patterns(&mut rng, &d.profile);
+        // Every fourth list is aimed at a prefilter (so that results that come
+        // straight from a prefilter are compared with the definition too) and
+        // gets duplicates / equal-length variants injected; sometimes it is
+        // grown to 21..64 patterns, the range in which the packed searcher's
+        // internal pattern ordering matters.
+        let (pats, alpha) = if li % 4 == 3 {
+            let (mut p, _) = crate::meta::prefilter_patterns(&mut rng);
+            let alpha: Vec<u8> = {
+                let mut a: Vec<u8> = p.iter().flat_map(|q| q.iter().copied()).take(10).collect();
+                a.push(b'e');
+                a
+            };
+            if rng.chance(1, 3) && p.len() >= 2 {
+                let target = rng.range(21, 64);
+                let mut guardn = 0;
+                while p.len() < target && guardn < 500 {
+                    guardn += 1;
+                    let src = rng.pick(&p).clone();
+                    if src.len() > 12 {
+                        continue;
+                    }
+                    // same length, another first byte, or an exact duplicate
+                    let mut q = src.clone();
+                    if rng.chance(1, 3) {
+                        // duplicate
+                    } else if !q.is_empty() {
+                        let i = rng.below(q.len());
+                        q[i] = *rng.pick(&alpha);
+                    }
+                    p.push(q);
+                }
+            }
+            for _ in 0..rng.below(4) {
+                let q = rng.pick(&p).clone();
+                p.push(q);
+            }
+            if !d.profile.allow_empty {
+                p.retain(|q| !q.is_empty());
+            }
+            rng.shuffle(&mut p);
+            (p, alpha)
+        } else {
+            gen::patterns(&mut rng, &d.profile)
+        };
         let big = pats.len() > 20 || pats.iter().any(|p| p.len() > 64);
         for &kind in d.kinds {
             let ncfg = if big { 2 } else { 3 };
